@@ -21,6 +21,15 @@ def run(cx):
     cx.rule("C20.R1", "error discipline: every reply obtained by varlink_call (the single call, every item of the --more iteration) is handed to print_call_ret unconditionally and its error leaves varlink_call through `?`; print_call_ret prints only on the Ok path; main exits with status 1 exactly on the Err edge of do_main")
     cx.rule("C20.R2", "address/method split at the last slash: a last-occurrence search for '/', address = url[..n], method = url[n+1..] handed unchanged to MethodCall::new; between the split and the connect only the `method has no dot` test may reject")
     cx.rule("C20.R3", "the printed value is the reply: the JSON printed on stdout is the Ok payload of the call, unmodified; the error arms name the four standard errors and a custom error with and without parameters")
+    cx.rule("C20.R4", "what the tool prints is what the service sent (library side the CLI relies on): a reply is read as one NUL-terminated frame however it is segmented, and only the four errors whose FULL name is org.varlink.service.<X> are printed in the short standard form (shared with C07.R6)")
+    from . import client_common as cc
+    cc.check_recv_framing(cx, "C20.R4", "varlink")
+    from .C07 import _name_tests, STD_ERRORS
+    fr = cx.mir.one("varlink", "<impl std::convert::From<Reply> for error::ErrorKind>::from")
+    tests, fuzzy, _ = _name_tests(fr, Cfg(fr), DefUse(fr))
+    cx.check(sorted(tests) == sorted(STD_ERRORS) and not fuzzy, "C20.R4", "varlink:From<Reply>:exact-names", fr.sp,
+             "reply errors are classified by %s%s, not by equality with the four full names: an error of another interface whose last component is e.g. InvalidParameter is printed in the short form, its name truncated and its parameters dropped" % (sorted(tests), " / " + str(sorted({t.callee.name for t in fuzzy})) if fuzzy else ""),
+             note_ok="four equality tests against full literal names")
     vc = cx.mir.one(PKG, "varlink_call")
     pr = cx.mir.one(PKG, "print_call_ret")
     cx.saw(vc); cx.saw(pr)
